@@ -80,7 +80,9 @@ FixedBook == Book(("a1L" :> LegacyAsk), ("b1" :> AsV2(FreshBid("b1", "buyer1"), 
                   @@ ("b3" :> AsV2(FreshBid("b3", "buyer2"), <<Ev("reject", 1, 2, 1), Ev("fill", 1, 1, 0), Ev("refund", 0, 1, 0)>>)))
 
 AllVersions == {NoVer, "garbage", "1.0", "0.14.9", "0.15.0", "0.16.1", "0.16.2", "0.18.2", "0.19.0", "0.19.1",
-                "1.0.0", "2.0.0", "1.0.0-rc1", "0.16.2-alpha", "1.0.0+build5"}
+                "1.0.0", "2.0.0", "1.0.0-rc1", "0.16.2-alpha", "1.0.0+build5",
+                \* versions whose order as strings differs from their order as versions
+                "0.9.3", "0.16.10", "0.100.0", "10.0.0"}
 Seeds ==
        {[FixedBook EXCEPT !.cfg = c] @@ [ver |-> v] : v \in AllVersions, c \in {Cfg, UnsetCfg}}
   \cup {Book(a, b1, b2) @@ [ver |-> v] : v \in (IF Tier = "quick" THEN {"0.18.2"} ELSE {"0.18.2", "0.19.1"}),
